@@ -38,7 +38,7 @@ func init() {
 	for _, n := range simhook.ProbeNames {
 		pn = append(pn, n)
 	}
-	pn = append(pn, "same-type-first-used-by-2+-tasks", "type-nested-in-another-tasks-type", "recursive-type", "map-field-type(proto structPool)", "anymap-of-fresh-types", "ops", "typeof-identity-checked", "result-stability-checked", "steady-state-rechecked", "corrupted-input-ops", "case-changed-keys", "marshal-output>64KiB", "marshal-of-a-map-with-127..300-keys", "caches-prewarmed-with-many-types")
+	pn = append(pn, "same-type-first-used-by-2+-tasks", "type-nested-in-another-tasks-type", "recursive-type", "map-field-type(proto structPool)", "anymap-of-fresh-types", "ops", "typeof-identity-checked", "result-stability-checked", "steady-state-rechecked", "corrupted-input-ops", "case-changed-keys", "marshal-output>64KiB", "marshal-of-a-map-with-127..300-keys", "raw-messages-in-a-reused-buffer", "caches-prewarmed-with-many-types")
 	core.Register(&core.Property{
 		ID: "C09", Level: "exploration", Engine: "sched", Race: true, Sched: true,
 		Quick: 60000, Thorough: 3000000,
@@ -83,11 +83,12 @@ const (
 	opProtoTypeOf
 	opThriftMarshal
 	opThriftUnmarshal
+	opJSONMarshalRawInPlace
 	numOps
 )
 
 var opNames = []string{"json.Marshal", "json.Append", "json.Unmarshal", "json.Parse", "json.Encoder.Encode", "json.Decoder.Decode", "json.Tokenizer", "json.Marshal(map[string]any of fresh types)", "json.Tokenizer(error, Reset, reuse)",
-	"proto.Marshal", "proto.Size", "proto.Unmarshal", "proto.MarshalTo", "proto.TypeOf", "thrift.Marshal", "thrift.Unmarshal"}
+	"proto.Marshal", "proto.Size", "proto.Unmarshal", "proto.MarshalTo", "proto.TypeOf", "thrift.Marshal", "thrift.Unmarshal", "json.Marshal(RawMessage in the caller's reused buffer)"}
 
 type c09Op struct {
 	kind    int
@@ -105,6 +106,10 @@ type c09Op struct {
 	big bool
 	// bigMap: a Marshal of a map with 127..300 keys
 	bigMap bool
+	// raw in place: the document is copied into the task's one buffer (arena) and
+	// marshalled from there as a json.RawMessage
+	arena  []byte
+	rawDoc []byte
 }
 
 type c09Res struct {
@@ -163,6 +168,12 @@ func (op *c09Op) exec() (res c09Res) {
 		res.out, res.err = ownSpare(b), errStr(err)
 	case opJSONMarshalAnyMap:
 		b, err := json.Marshal(op.vals)
+		res.out, res.err = ownSpare(b), errStr(err)
+	case opJSONMarshalRawInPlace:
+		for i := range op.rawDoc {
+			op.arena[i] = op.rawDoc[i]
+		}
+		b, err := json.Marshal(json.RawMessage(op.arena[:len(op.rawDoc)]))
 		res.out, res.err = ownSpare(b), errStr(err)
 	case opJSONAppend:
 		b, err := json.Append(make([]byte, 0, 16), op.val.Interface(), op.flags)
@@ -674,6 +685,11 @@ func runC09(r *core.Run) {
 		maxOps = 7
 	}
 	tasks := make([][]*c09Op, ntasks)
+	rawTheme := t.Chance(1, 25)
+	arenas := make([][]byte, ntasks)
+	for i := range arenas {
+		arenas[i] = make([]byte, 256)
+	}
 	// the first type of the pool is "hot": every task is likely to use it first
 	hot := pool[t.Intn(len(pool))]
 	nops := 0
@@ -686,6 +702,25 @@ func runC09(r *core.Run) {
 				ty = hot
 			}
 			op := c09MakeOp(t, ty, pool)
+			if rawTheme && t.Chance(1, 2) {
+				// records of one size read into the task's one buffer and passed on as
+				// json.RawMessage: full-length, shorter and padded, or corrupted
+				op = &c09Op{ty: ty, kind: opJSONMarshalRawInPlace, arena: arenas[i]}
+				doc := []byte(`{"record":"`)
+				for len(doc) < 158 {
+					doc = append(doc, byte('a'+t.Intn(26)))
+				}
+				doc = append(doc, '"', '}')
+				switch t.Intn(3) {
+				case 1:
+					n := t.Range(20, 120)
+					doc = append(append(doc[:n:n], '"', '}'), bytes.Repeat([]byte{' '}, 158-n)...)
+				case 2:
+					doc[t.Intn(len(doc))] = "]}\"\\,:"[t.Intn(6)]
+				}
+				op.rawDoc = doc
+				r.Probe("raw-messages-in-a-reused-buffer")
+			}
 			if op.corrupt {
 				r.Probe("corrupted-input-ops")
 			}
